@@ -277,7 +277,7 @@ def method_mock(ctx):
         reach_ok = any(v for t, v in ex.config if rec is not None and t == ("i", rec, ("c", -3))) and cfg.get("self._freeze") is False
         ctx.check(okl and okv and okc and no_wait and reach_ok, "C43.mock-output", e.site, f"MethodMock.output_process[{name}]", found=f"{tstr(e.call)} with ret = {tstr(d) if d else '?'}; decisions {cfg}",
                   required="on a change with done set and before the clock edge: pending effects dropped, the mock function applied to the sampled argument inside the mock context, its result written to data_in at once (same cycle)")
-    ctx.floor("C43", "output_process computing configurations", n, 1, fn.site)
+    ctx.check(n >= 1, "C43.mock-output", fn.site, "MethodMock.output_process.writes-data-in", found=f"{n} path(s) that write the computed result to adapter.data_in", required="the mock's return value is written to the adapter's data_in (reaches the caller in the same cycle)")
     fn = Fn(ctx.repo, MM, "MethodMock.effect", "C43")
     effs = [e for ex in fn.exs for e in ex.of(Effect)]
     ok = len(effs) == 1 and effs[0].call == ("call", ("a", ("a", pat("MethodMock._current_mock"), "_effects"), "append"), (fn.param(0),), ())
@@ -289,6 +289,10 @@ def check(ctx):
     call_trigger(ctx)
     testbench_io(ctx)
     method_mock(ctx)
+    from . import c43x
+
+    c43x.low_level(ctx)
+    c43x.mock_state(ctx)
 
 
 MUTANTS = [
